@@ -9,16 +9,42 @@ from harness import trk
 from harness.common import Ctx, driver, pmap, use_repo
 
 
+def edge_cases():
+    """Moves of exactly one cell that end exactly on a cell edge n + 1/2 with land on one side: the cell of a position
+    is the one numpy's rounding (half to even) gives, for the land test as for everything else."""
+    import numpy as np
+    from fractions import Fraction
+    out = []
+    k = 0
+    for scheme in ("EF", "RK2", "RK4"):
+        for axis in ("x", "y"):
+            for landcell, start, direction in ((2, 3.5, -1), (5, 3.5, 1), (4, 5.5, -1), (7, 5.5, 1)):
+                gs = trk.grid_spec(900 + k, imax=12, jmax=12, land=False, dx=128.0, varh=False)
+                gs["dx"] = np.full_like(gs["dx"], 128.0)
+                if axis == "x":
+                    gs["mask"][:, landcell] = 0
+                    parts = [[start, 4.0 + 0.25 * j, 1.0, 1, 1] for j in range(4)]
+                    cu, cv = [str(Fraction(2 * direction))] + ["0"] * 6, ["0"] * 7
+                else:
+                    gs["mask"][landcell, :] = 0
+                    parts = [[4.0 + 0.25 * j, start, 1.0, 1, 1] for j in range(4)]
+                    cu, cv = ["0"] * 7, [str(Fraction(2 * direction))] + ["0"] * 6
+                out.append(dict(grid=gs, subgrid=None, scheme=scheme, dt=64, cu=cu, cv=cv, particles=parts, nsteps=2, seed=900 + k, edge=True))
+                k += 1
+    return out
+
+
 def run(ctx: Ctx):
     use_repo()
     n = 1500 if ctx.thorough else 160
-    cases = [trk.random_case(ctx.seed * 100000 + k, diffusion=(k % 2 == 0), nsteps=6) for k in range(n)]
+    cases = [trk.random_case(ctx.seed * 100000 + k, diffusion=(k % 2 == 0), nsteps=6) for k in range(n)] + edge_cases()
     got = pmap(trk.run_tracker, cases)
     want = driver([trk.model_request(c) for c in cases])
     for c, g, w in zip(cases, got, want):
         deaths = sum(1 for s in g["steps"][-1:] if "alive" in s for a, p in zip(s["alive"], c["particles"]) if p[3] and not a)
         ctx.case("tracker", [c["seed"], c["scheme"], c["dt"], c.get("D", 0)], sample=trk.small(c) | dict(particles=c["particles"][:2], draws="…"),
                  nontrivial=True)
+        ctx.count("edge-tie cases" if c.get("edge") else "random cases")
         ctx.count("scheme:" + c["scheme"]); ctx.count("diffusion:" + str("D" in c)); ctx.count("subgrid:" + str(c["subgrid"] is not None))
         ctx.count("deaths", deaths)
         bad = trk.invariant_monitor(c, g)
